@@ -21,6 +21,7 @@
 #############################################################################
 
 from dashlive.utils.date_time import from_isodatetime
+from dashlive.utils.objects import flatten
 
 from .dash_option import DashOption
 from .types import OptionUsage
@@ -38,6 +39,11 @@ def _errors_from_string(value: str) -> list[tuple[int, str]]:
         items.append((int(code, 10), pos))
     return items
 
+def _errors_to_string(value: list[tuple[int, int | str]] | None) -> str:
+    if not value:
+        return ''
+    return ','.join([f'{code}={flatten(pos)}' for code, pos in value])
+
 def http_error_factory(use: str, description: str):
     prefix = use[0]
     return DashOption(
@@ -47,6 +53,7 @@ def http_error_factory(use: str, description: str):
         title=f'{description} HTTP errors',
         description=f'Cause an HTTP error to be generated when requesting {description}',
         from_string=_errors_from_string,
+        to_string=_errors_to_string,
         cgi_name=f'{prefix}err',
         cgi_type='<code>=<num|isoDateTime>,..')
 
